@@ -8,11 +8,13 @@ theorem tie_h_exec_commandExecutor_Run : Extracted.Exec.h_exec_commandExecutor_R
 theorem tie_h_exec_newCommand : Extracted.Exec.h_exec_newCommand = Canon.Exec.h_exec_newCommand := by decide +kernel
 theorem tie_h_exec_commandExecutor_SetStdout : Extracted.Exec.h_exec_commandExecutor_SetStdout = Canon.Exec.h_exec_commandExecutor_SetStdout := by decide +kernel
 theorem tie_h_exec_commandExecutor_SetStderr : Extracted.Exec.h_exec_commandExecutor_SetStderr = Canon.Exec.h_exec_commandExecutor_SetStderr := by decide +kernel
+theorem tie_h_rest_exec_dag_executor_command_go : Extracted.Exec.h_rest_exec_dag_executor_command_go = Canon.Exec.h_rest_exec_dag_executor_command_go := by decide +kernel
 
 #print axioms tie_h_exec_commandExecutor_Kill
 #print axioms tie_h_exec_commandExecutor_Run
 #print axioms tie_h_exec_newCommand
 #print axioms tie_h_exec_commandExecutor_SetStdout
 #print axioms tie_h_exec_commandExecutor_SetStderr
+#print axioms tie_h_rest_exec_dag_executor_command_go
 
 end BdModel.Tie.Exec
